@@ -220,6 +220,21 @@ def run(ck, prog, ctx):
                 ok2 = ok2 or all(ins.dominates(lbb, pb) and lbb != pb for pb, _ in pushes)
             ck.ob("DOM", "insert/slot-value/%d" % n, ok2, "stored slot value %s" % ("is terms.len() taken before the push" if ok2 else "is not the pre-push length of `terms`"), where=ins.where(s.line))
         ck.floor("DOM", "insert push/write sites", len(pushes) + len(writes), 2)
+    # ---- every OTHER place of the arena that adds terms (a bulk `Extend` impl, a `from_iter`, ..) either goes through `Arena::insert` or has a
+    # vacancy test of its own: `self.terms.extend(iter)` followed by filling the table keeps a second record of an id that is already there
+    # (the table points at the later one, `len()` and iteration count both)
+    if sentinel_repr and ins is not None:
+        for ab in sorted(prog.production(), key=lambda z: z.id):
+            if ab.kind != "AssocFn" or not ab.impl_self or ab.impl_self.get("adt") != ARENA or ab.id == ins.id or ab.name in ("default", "with_capacity", "new"):
+                continue
+            for fb_ in prog.family(ab):
+                for abi, at_ in fb_.calls():
+                    if at_.callee.method in ("push", "extend", "extend_from_slice", "append", "insert", "extend_one") and "HpoTermInternal" in (at_.callee.def_args or "") and not (at_.callee.res and at_.callee.res in prog.bodies) \
+                            and at_.args and "terms" in field_names(pv.of_operand(fb_, at_.args[0]), "Arena"):
+                        tests_ = zero_test_edges(fb_, pv, is_slot)
+                        ok_ = any(fb_.edge_dominates(e_, abi) for tst in tests_ for e_ in tst["zero_edges"])
+                        ck.ob("DOM", "store/%s/%s" % (ab.short, at_.callee.method), ok_, "%s adds terms with `%s` %s" % (ab.short, at_.callee.method, "only where the id's slot is vacant" if ok_ else
+                              "without going through Arena::insert and without a vacancy test of its own: a record whose id is already stored is stored a second time"), where=fb_.where(at_.line))
 
     # ------------------------------------------------------------------ ROLE: name predicates
     def closure_calls(fn_id, method_rx):
